@@ -133,9 +133,11 @@ class extract_visitor(NodeVisitor):
     def visit_Delete(self, node):
         # type: (ast.Delete) -> None
         for name in node.targets:
-            if isinstance(name, AstName):
+            scope = self.flow.scope
+            if (isinstance(name, AstName) and name.id not in scope.globals
+                    and name.id not in scope.nonlocals):
                 # deleting a name makes it local to the scope
-                self.flow.scope.locals.add(name.id)
+                scope.locals.add(name.id)
         self.generic_visit(node)
 
     def visit_If(self, node):
